@@ -53,7 +53,7 @@ H = "esutil.htm.htm."
 
 # rules that keep their verdict however the code is laid out (decided by term equality, effect analysis or dominance over
 # resolved calls); every other rule of this check is a template rule (vcheck.core.Check.obt)
-SEMANTIC = ('R12.1', 'R12.2', 'R12.4::match::every-emitted-group-is-ordered', 'R12.4::match::every-output-loop-keeps-maxmatch', 'R12.4::PAIR_INFO_ORDERING', 'R12.7', 'R12.8', 'R12.9')
+SEMANTIC = ('R12.1', 'R12.2', 'R12.3::init_hmap::member-filed-under-own-id', 'R12.4::match::every-emitted-group-is-ordered', 'R12.4::match::every-output-loop-keeps-maxmatch', 'R12.4::match::truncate-only-positive-maxmatch', 'R12.4::PAIR_INFO_ORDERING', 'R12.7', 'R12.8', 'R12.9')
 
 
 def run(chk):
@@ -752,11 +752,34 @@ class MatchFn:
         chk.ob("R12.2", "match::full-and-partial-triangles-are-candidates", okc if len(lists) == 2 else None, self.where,
                "both the fully-inside and the partially-overlapping triangle lists are copied in full into the candidate list (%s)" % {L: sorted(v) for L, v in copies.items()})
         # the number of candidates: the sum of both lengths, or the size of the candidate container itself
-        nf = [(m, v, "sum") for m in cfg.nodes for v, r in node_defs(m) if lists and all(("%s.length()" % L) in render(r) for L in lists) and strip(r).get("opcode") == "+"]
+        # (read through casts and through locals that are initialised once and never written again: `nfull = flist.length(); nfound = nfull + npartial`)
+        sdl = _single_def_locals(self.decl)
+
+        def length_leaves(e, depth=0):
+            """the lists whose .length() the expression adds up (a `+` tree over `L.length()` leaves, hoisted or in place); None when it is anything else"""
+            e = _through_locals(e, sdl)
+            if not isinstance(e, dict) or depth > 6:
+                return None
+            if e.get("kind") == "BinaryOperator" and e.get("opcode") == "+":
+                a, b = length_leaves(e["inner"][0], depth + 1), length_leaves(e["inner"][1], depth + 1)
+                return None if a is None or b is None else a + b
+            t = render(e).replace(" ", "")
+            for L in lists:
+                if t == "%s.length()" % L:
+                    return [L]
+            return None
+        nf, partial = [], []
+        for m in cfg.nodes:
+            for v, r in node_defs(m):
+                lv = length_leaves(r) if lists else None
+                if lv is None:
+                    continue
+                if sorted(lv) == sorted(lists) and len(lv) > 1:
+                    nf.append((m, v, "sum"))
+                elif set(lv) < set(lists) and inter and view.dominates(inter[0][0], m):
+                    partial.append((m, v))
         if cand is not None:
             nf += [(m, v, "size") for m in cfg.nodes for v, r in node_defs(m) if render(strip(r)) == "%s.size()" % cand]
-        partial = [(m, v) for m in cfg.nodes for v, r in node_defs(m) if lists and any(("%s.length()" % L) in render(r) for L in lists)
-                   and not all(("%s.length()" % L) in render(r) for L in lists) and view.dominates(inter[0][0], m)] if inter else []
         finds = [m for m in cfg.nodes if isinstance(m.c, dict) and "hmap.find(" in render(m.c) and any(view.dominates(q, m) for q in [inter[0][0]] if inter)]
         flp = [b for b, lab in view.controlling_branches(finds[0]) if b.kind == "loop" and lab == "T"] if finds else []
         fcond = render(flp[0].c) if flp and isinstance(flp[0].c, dict) else ""
@@ -831,12 +854,9 @@ class MatchFn:
                     kdefs["init"] = n
         kv = kdefs.get("var")
         trunc = [n for n in cfg.nodes for v, rhs in node_defs(n) if v == kv and n is not kdefs.get("init")]
-        ok = len(trunc) == 1 and render(node_defs(trunc[0])[0][1]) == self.p_max
-        if ok:
-            ctl = [(render(b.c), lab) for b, lab in view.controlling_branches(trunc[0]) if b.kind == "branch"]
-            ok = ("(%s > 0)" % self.p_max, "T") in ctl and ("(%s > %s)" % (kv, self.p_max), "T") in ctl
-        chk.ob("R12.4", "match::truncate-only-positive-maxmatch", bool(ok), self.w(trunc[0]) if trunc else self.where,
-               "the kept count is lowered to maxmatch only when maxmatch > 0 and the group is larger (maxmatch <= 0 keeps all)")
+        ok, why, at = self.truncation_verdict(kv, name, trunc)
+        chk.ob("R12.4", "match::truncate-only-positive-maxmatch", ok, self.w(at) if at is not None else (self.w(trunc[0]) if trunc else self.where),
+               "the kept count is lowered to maxmatch only when maxmatch > 0 and the group is larger (maxmatch <= 0 - zero or any negative value - keeps all)%s" % why)
         if sorts and trunc:
             chk.ob("R12.4", "match::sort-before-truncate", view.dominates(sorts[0], trunc[0]), self.w(trunc[0]), "the group is sorted before it is truncated (the k kept are the k closest)")
         # emission loop over the first nkeep entries in order
@@ -909,6 +929,107 @@ class MatchFn:
                    % ("" if not unordered_path else " -- some path reaches the emission without one" + ((" (only a partition: %s)" % ", ".join(only_part)) if only_part else "")))
 
     # ------------------------------------------------------------------
+    def truncation_verdict(self, kv, name, trunc):
+        """(ok, text, node) for the maxmatch truncation.  With maxmatch <= 0 (zero or ANY negative value) every pair of a group is kept; with
+        a positive maxmatch the first maxmatch entries.  Whatever the layout, every statement that can lower the kept count to maxmatch - an
+        assignment `kept = maxmatch` / `kept = min(kept, maxmatch)` or a resize / erase of the pair list by maxmatch - therefore runs only
+        where `maxmatch > 0` is a fact of its controlling tests (guard_facts: nested ifs, a merged `&&`, an early `continue` all read the
+        same), and a plain assignment only where `maxmatch < kept` (or <=) holds as well, otherwise a limit above the group size moves the
+        count past the end of the list.  False only for a positively identified lowering statement whose facts do not include the
+        positivity of maxmatch; anything that is not one of the forms above is not judged."""
+        import re as _re
+        M = self.p_max
+        view, cfg = self.view, self.cfg
+        body = cfront.body_of(self.decl)
+        if M in _assigned_names(self.decl):
+            return None, " -- the maxmatch parameter is itself reassigned: not followed", None
+        same = {v for v, rd in self.alias.items() if rd == ("param", M)}
+        sdl = _single_def_locals(self.decl)
+
+        def facts_at(n):
+            out = set()
+            for ft in guard_facts(view, n):
+                for a in same:
+                    ft = _re.sub(r"\b%s\b" % _re.escape(a), M, ft)
+                out.add(ft)
+            return out
+
+        def is_M(e):
+            e = _through_locals(e, sdl)
+            return isinstance(e, dict) and e.get("kind") == "DeclRefExpr" and e.get("referencedDecl", {}).get("kind") == "ParmVarDecl" and e["referencedDecl"].get("name") == M
+
+        def is_kept(e):
+            t = render(_through_locals(e, sdl)).replace(" ", "")
+            return (kv is not None and t == kv) or t == "%s.size()" % name
+
+        def is_min(e):
+            e = _through_locals(e, sdl)
+            if isinstance(e, dict) and e.get("kind") == "CallExpr" and (callee_name(e) or "").split("::")[-1] == "min":
+                a = cfront.call_args(e)
+                return len(a) == 2 and ((is_M(a[0]) and is_kept(a[1])) or (is_M(a[1]) and is_kept(a[0])))
+            return False
+
+        def mentions_M(e):
+            return any(x.get("kind") == "DeclRefExpr" and x.get("referencedDecl", {}).get("name") in ({M} | same) for x in walk(e))
+
+        def positive(fs_):
+            return bool({"0<%s" % M, "1<=%s" % M} & fs_) or {"0!=%s" % M, "0<=%s" % M} <= fs_
+
+        def larger(fs_):
+            if kv is not None and {"%s<%s" % (M, kv), "%s<=%s" % (M, kv)} & fs_:
+                return True
+            return None if any(_re.search(r"\b%s\b" % _re.escape(M), f_) and ((kv is not None and _re.search(r"\b%s\b" % _re.escape(kv), f_)) or name in f_) for f_ in fs_) else False
+
+        sites = []          # (verdict, node, text)
+        for n in trunc:
+            for v, rhs in node_defs(n):
+                if v != kv:
+                    continue
+                plain, mn = is_M(rhs), is_min(rhs)
+                if not (plain or mn):
+                    if render(strip(rhs)).replace(" ", "") == "%s.size()" % name:
+                        continue
+                    sites.append((None, n, "`%s`: not one of the recognised forms" % render(n.c)))
+                    continue
+                fs_ = facts_at(n)
+                if not positive(fs_):
+                    sites.append((False, n, "`%s` runs wherever %s holds, which does not imply %s > 0: a negative maxmatch ('keep all', e.g. -1) or zero lowers the kept count "
+                                  "to it and the group is dropped" % (render(n.c), sorted(f_ for f_ in fs_ if _re.search(r"\b%s\b" % _re.escape(M), f_)) or "no test on maxmatch", M)))
+                elif plain and larger(fs_) is not True:
+                    lg = larger(fs_)
+                    sites.append((lg, n, "`%s` is not limited to groups larger than maxmatch (facts: %s)%s" % (render(n.c), sorted(fs_), "" if lg is None else
+                                  ": a limit above the group size moves the kept count past the end of the list")))
+                else:
+                    sites.append((True, n, render(n.c)))
+        for n in cfg.nodes:
+            if not isinstance(n.c, dict):
+                continue
+            for y in walk(n.c):
+                if y.get("kind") == "CXXMemberCallExpr" and callee_name(y) in ("resize", "erase") and y["inner"][0].get("inner") \
+                        and render(strip(y["inner"][0]["inner"][0])) == name and any(mentions_M(a) for a in cfront.call_args(y)):
+                    fs_ = facts_at(n)
+                    if not positive(fs_):
+                        sites.append((False, n, "`%s` runs wherever %s holds, which does not imply %s > 0" % (render(y), sorted(fs_) or "nothing", M)))
+                    else:
+                        sites.append((True if larger(fs_) is True else None, n, render(y)))
+        if kv is not None:
+            for x in walk(body):
+                if x.get("kind") == "CompoundAssignOperator" or (x.get("kind") == "UnaryOperator" and x.get("opcode") in ("++", "--")):
+                    if render(strip(x["inner"][0])) == kv:
+                        sites.append((None, None, "the kept count is also changed by `%s`: not followed" % render(x)))
+        bad = [s for s in sites if s[0] is False]
+        if bad:
+            return False, " -- " + "; ".join(s[2] for s in bad[:2]), bad[0][1]
+        unk = [s for s in sites if s[0] is None]
+        if unk:
+            return None, " -- not judged: " + "; ".join(s[2] for s in unk[:2]), unk[0][1]
+        if sites:
+            return True, " (%s)" % "; ".join("`%s`" % s[2] for s in sites[:3]), sites[0][1]
+        if not any(x.get("kind") == "DeclRefExpr" and x.get("referencedDecl", {}).get("name") == M for x in walk(body)):
+            return False, " -- the maxmatch parameter is never read in Matcher::match: a positive limit is ignored", None
+        return None, " -- no statement that lowers the kept count to maxmatch was recognised", None
+
+    # ------------------------------------------------------------------
     def emit_rule(self):
         chk, cfg, view = self.chk, self.cfg, self.view
         if not hasattr(self, "emit_loop"):
@@ -963,6 +1084,19 @@ class MatchFn:
                 ar = array_read_ptr(rhs)
                 if ar and ar[0][1] in outs:
                     ptr[v] = ar
+        # the bare data pointer of an output array, taken once: the arrays come from PyArray_ZEROS(1, ...) (new, one-dimensional, C order, hence
+        # contiguous), so element i is at ((T *) PyArray_DATA(a))[i] provided T is as wide as the element type (LP64: long / int64 / intp; double)
+        dptr = {}
+        WIDE = {"NPY_LONG": ("npy_int64 *", "int64_t *", "long *", "npy_intp *", "long long *", "npy_long *", "npy_longlong *"),
+                "NPY_DOUBLE": ("double *", "npy_float64 *", "npy_double *")}
+        sdl = _single_def_locals(self.decl)
+        ptypes = {x["name"]: (x.get("type") or {}).get("qualType", "") for x in walk(cfront.body_of(self.decl)) if x.get("kind") == "VarDecl" and x.get("name")}
+        for v, init in sdl.items():
+            e = _through_locals(init, {})
+            if isinstance(e, dict) and e.get("kind") == "CallExpr" and callee_name(e) in ("PyArray_DATA", "PyArray_BYTES") and cfront.call_args(e):
+                tgt = render(_through_locals(cfront.call_args(e)[0], {}))
+                if tgt in outs and ptypes.get(v, "").replace("const ", "") in WIDE.get(outs[tgt][0], ()):
+                    dptr[v] = tgt
         stores = {}
         for n in cfg.nodes:
             if n.kind == "stmt" and isinstance(n.c, dict):
@@ -973,6 +1107,9 @@ class MatchFn:
                         p = render(l["inner"][0])
                         if p in ptr:
                             stores[ptr[p][0][1]] = (render(c["inner"][1]), ptr[p][1])
+                    elif l.get("kind") == "ArraySubscriptExpr" and render(strip(l["inner"][0])) in dptr:
+                        # `p[i] = v[i]` with p the data pointer, taken once, of one of the new output arrays
+                        stores[dptr[render(strip(l["inner"][0]))]] = (render(c["inner"][1]), render(strip(l["inner"][1])))
         tup = {}
         for n in cfg.nodes:
             if isinstance(n.c, dict):
@@ -1437,6 +1574,209 @@ def hmap_rule(chk, fs):
         arms = {"unconditional": direct[0][1:]} if ok else arms
     chk.ob("R12.3", "init_hmap::index-pushed-in-both-arms", bool(ok), where,
            "the member index is appended exactly once, whether its triangle is new (new list stored under the id) or already present (%s)" % arms)
+    member_bucket_rule(chk, fn, g, view, RIN, ivar, look, where)
+
+
+def member_bucket_rule(chk, fn, g, view, RIN, ivar, look, where, rule="R12.3", fname="init_hmap"):
+    """none missing, the id -> members map: the search looks a member up ONLY in the list stored under the id of the member's own
+    triangle, so every statement that appends member index i must append to the list that IS hmap[id(i)], id(i) being the lookupID of
+    this iteration.  The receiving list is identified by data flow, not by spelling:
+      hmap[K]                      K has to be the id of this iteration;
+      it->second / (*it).second    `it` = hmap.find(K) of this iteration (the assignment dominates the append);
+      a local vector v             stored afterwards as hmap[K] = v on the same straight-line path;
+      a pointer / reference P      either bound in this iteration to one of the above, or a bucket remembered from an earlier
+                                   iteration: then the append must be guarded by `id == C` for a remembered id C, and the pair (P, C)
+                                   has to be kept consistent - every statement that re-points P to the bucket of K is accompanied, in
+                                   the same straight-line region, by C = K, and every C = K by a re-pointing of P (otherwise P and C
+                                   name different triangles after some sequence of points and a member lands in a foreign bucket).
+    False only when the receiver is identified and is the bucket of another key / an inconsistently remembered one; anything not
+    recognised gives no verdict."""
+    import re as _re
+    if look is None:
+        chk.ob(rule, "%s::member-filed-under-own-id" % fname, None, where, "the lookupID call that gives a member's triangle id was not located")
+        return
+    idnode, idvar = look[0], look[1]
+    ptypes = {x["name"]: (x.get("type") or {}).get("qualType", "") for x in walk(cfront.body_of(fn)) if x.get("kind") == "VarDecl" and x.get("name")}
+
+    def region(n):
+        return frozenset((b.id, lab) for b, lab in view.controlling_branches(n))
+
+    def cur_id(text, at):
+        """is `text` the id of the point of this iteration at node `at`: the id variable itself (its one reaching definition there is the
+        lookupID statement) or a local all of whose reaching definitions copy it"""
+        if text == idvar:
+            return RIN.get(at.id, {}).get(idvar, set()) == {idnode.id}
+        ds = RIN.get(at.id, {}).get(text, set())
+        rh = [r for i in ds for v, r in node_defs(g.node(i)) if v == text]
+        return bool(rh) and all(render(strip(r)) == idvar and cur_id(idvar, g.node(i)) for i in ds for v, r in node_defs(g.node(i)) if v == text) and cur_id(idvar, at)
+
+    def opcall(e, op):
+        e = strip(e)
+        return e if isinstance(e, dict) and e.get("kind") == "CXXOperatorCallExpr" and callee_name(e) == "operator" + op and len(e.get("inner", [])) >= 2 else None
+
+    def map_subscript(e):
+        c = opcall(e, "[]")
+        if c is not None and len(c["inner"]) == 3 and ref_desc(c["inner"][1]) == ("member", "hmap"):
+            return render(strip(c["inner"][2]))
+        return None
+
+    def iter_writes(it):
+        """[(node, key or None)] for every statement that gives the iterator `it` a value (a default-constructed declaration gives none)"""
+        out = []
+        for n in g.nodes:
+            if not isinstance(n.c, dict):
+                continue
+            for x in walk(n.c):
+                rhs = None
+                c = opcall(x, "=") if x.get("kind") == "CXXOperatorCallExpr" else None
+                if c is not None and render(strip(c["inner"][1])) == it and len(c["inner"]) == 3:
+                    rhs = c["inner"][2]
+                elif x.get("kind") == "VarDecl" and x.get("name") == it and init_of(x) is not None:
+                    if not any(y.get("kind") in ("CXXMemberCallExpr", "CallExpr", "DeclRefExpr") for y in walk(init_of(x))):
+                        continue        # default construction
+                    rhs = init_of(x)
+                elif x.get("kind") in ("CXXOperatorCallExpr", "UnaryOperator") and (callee_name(x) in ("operator++", "operator--") or x.get("opcode") in ("++", "--")) \
+                        and any(render(strip(y)) == it for y in x.get("inner", [])[-1:]):
+                    out.append((n, None))
+                    continue
+                if rhs is None:
+                    continue
+                key = None
+                for y in walk(rhs):
+                    if y.get("kind") == "CXXMemberCallExpr" and callee_name(y) == "find" and y["inner"][0].get("inner") \
+                            and ref_desc(y["inner"][0]["inner"][0]) == ("member", "hmap") and len(cfront.call_args(y)) == 1:
+                        key = render(strip(cfront.call_args(y)[0]))
+                out.append((n, key))
+        return out
+
+    def bucket_key(e, at):
+        """('key', K, node where K was read) of the bucket the expression denotes / ('unknown', why)"""
+        e = strip(e)
+        if isinstance(e, dict) and e.get("kind") == "UnaryOperator" and e.get("opcode") == "&":
+            e = strip(e["inner"][0])
+        k = map_subscript(e)
+        if k is not None:
+            return ("key", k, at)
+        if isinstance(e, dict) and e.get("kind") == "MemberExpr" and e.get("name") == "second" and e.get("inner"):
+            b = strip(e["inner"][0])
+            it = None
+            c = opcall(b, "->") or opcall(b, "*")
+            if c is not None:
+                it = render(strip(c["inner"][1]))
+            if it is None:
+                return ("unknown", "`%s` is not an iterator dereference" % render(b))
+            ws = iter_writes(it)
+            dom = [(n, key) for n, key in ws if n.id != at.id and view.dominates(n, at)]
+            if not dom or len(dom) != len(ws) or any(key is None for _, key in ws) or len({key for _, key in dom}) != 1:
+                return ("unknown", "the iterator `%s` is not the result of one hmap.find(...) that precedes the use on every path" % it)
+            return ("key", dom[0][1], dom[0][0])
+        return ("unknown", "`%s`" % render(e))
+
+    pushes = []
+    for n in g.nodes:
+        if isinstance(n.c, dict):
+            for x in walk(n.c):
+                if x.get("kind") == "CXXMemberCallExpr" and callee_name(x) == "push_back" and x["inner"][0].get("inner") and len(cfront.call_args(x)) == 1 \
+                        and render(strip(cfront.call_args(x)[0])) == ivar:
+                    pushes.append((n, x))
+    verdicts = []           # (ok, node, text)
+    for n, x in pushes:
+        obj = strip(x["inner"][0]["inner"][0])
+        arrow = bool(x["inner"][0].get("isArrow"))
+        txt = render(n.c)
+        if obj.get("kind") == "DeclRefExpr" and obj.get("referencedDecl", {}).get("kind") == "VarDecl":
+            P = obj["referencedDecl"]["name"]
+            pty = ptypes.get(P, "")
+            if not arrow and not pty.rstrip().endswith("&"):
+                # a local list that is stored in the map afterwards
+                stores = []
+                for m in g.nodes:
+                    if not isinstance(m.c, dict):
+                        continue
+                    for y in walk(m.c):
+                        c = opcall(y, "=") if y.get("kind") == "CXXOperatorCallExpr" else None
+                        if c is not None and len(c["inner"]) == 3 and render(strip(c["inner"][2])) == P and map_subscript(c["inner"][1]) is not None:
+                            stores.append((m, map_subscript(c["inner"][1])))
+                here = [(m, k) for m, k in stores if view.dominates(n, m) and region(m) == region(n)]
+                if len(here) == 1 and len(stores) == 1:
+                    ok = cur_id(here[0][1], here[0][0])
+                    verdicts.append((True if ok else False, n, "`%s`, stored as hmap[%s]%s" % (txt, here[0][1], "" if ok else " - which is not the id of member %s" % ivar)))
+                else:
+                    verdicts.append((None, n, "`%s`: the local list `%s` is not stored by one `hmap[id] = %s` that follows it" % (txt, P, P)))
+                continue
+            # a pointer / reference to a bucket
+            ds = sorted(RIN.get(n.id, {}).get(P, set()))
+            dd = [(g.node(i), r) for i in ds for v, r in node_defs(g.node(i)) if v == P]
+            if len(dd) == 1 and view.dominates(dd[0][0], n) and dd[0][0].id != n.id:
+                bk = bucket_key(dd[0][1], dd[0][0])
+                if bk[0] == "key":
+                    ok = cur_id(bk[1], bk[2]) and cur_id(idvar, n)
+                    verdicts.append((True if ok else False, n, "`%s` with %s = bucket of `%s`%s" % (txt, P, bk[1], "" if ok else " - which is not the id of member %s" % ivar)))
+                else:
+                    verdicts.append((None, n, "`%s`: %s" % (txt, bk[1])))
+                continue
+            # remembered from an earlier iteration: needs the guard id == C and a consistent (P, C) pair
+            C = None
+            for ft in sorted(guard_facts(view, n)):
+                mt = _re.match(r"^([A-Za-z_]\w*)==([A-Za-z_]\w*)$", ft)
+                if mt and idvar in mt.groups() and mt.group(1) != mt.group(2):
+                    C = mt.group(2) if mt.group(1) == idvar else mt.group(1)
+            if C is None or not cur_id(idvar, n):
+                verdicts.append((None, n, "`%s`: `%s` may still point to the bucket of an earlier member and no test `%s == <remembered id>` guards the append" % (txt, P, idvar)))
+                continue
+            lp_body = {m.id for lp in g.nodes if lp.kind == "loop" for m in loop_body(g, view, lp)}
+            pdefs, cdefs, unk = [], [], []
+            for m in g.nodes:
+                for v, r in node_defs(m):
+                    if v == P:
+                        if render(strip(r)) in ("NULL", "0", "nullptr", "__null") or m.id not in lp_body:
+                            continue
+                        bk = bucket_key(r, m)
+                        if bk[0] != "key":
+                            unk.append("`%s`: %s" % (render(m.c), bk[1]))
+                        else:
+                            pdefs.append((m, bk[1]))
+                    elif v == C and m.id in lp_body:
+                        cdefs.append((m, render(strip(r))))
+            if unk or not pdefs:
+                verdicts.append((None, n, "`%s`: %s" % (txt, "; ".join(unk) or "no statement that points `%s` to a bucket was recognised" % P)))
+                continue
+            lone_p = [(m, k) for m, k in pdefs if not any(region(c_) == region(m) and kc == k for c_, kc in cdefs)]
+            lone_c = [(c_, kc) for c_, kc in cdefs if not any(region(c_) == region(m) and kc == k for m, k in pdefs)]
+            if lone_p:
+                m, k = lone_p[0]
+                verdicts.append((False, m, "`%s` appends member %s to a bucket remembered from an earlier member, guarded by `%s == %s`; but `%s` re-points `%s` to the bucket of "
+                                 "triangle `%s` without bringing `%s` along (it keeps the id of an earlier triangle): after that a member whose id equals `%s` is filed under "
+                                 "the wrong triangle and no search of its own triangle finds it" % (txt, ivar, idvar, C, render(m.c), P, k, C, C)))
+            elif lone_c:
+                c_, kc = lone_c[0]
+                verdicts.append((False, c_, "`%s` appends member %s to a remembered bucket guarded by `%s == %s`; but `%s` changes the remembered id without re-pointing `%s` "
+                                 "to that triangle's bucket" % (txt, ivar, idvar, C, render(c_.c), P)))
+            elif any(not cur_id(k, m) for m, k in pdefs):
+                verdicts.append((None, n, "`%s`: a bucket `%s` is pointed to is not that of the current id" % (txt, P)))
+            else:
+                verdicts.append((True, n, "`%s` under `%s == %s`, (%s, %s) updated together at %s" % (txt, idvar, C, P, C, sorted({render(m.c) for m, _ in pdefs}))))
+            continue
+        bk = bucket_key(obj, n)
+        if bk[0] == "key":
+            ok = cur_id(bk[1], bk[2]) and cur_id(idvar, n)
+            if not ok and bk[1] != idvar and not _re.match(r"^[A-Za-z_]\w*$", bk[1]):
+                verdicts.append((None, n, "`%s`: key `%s` not followed" % (txt, bk[1])))
+            else:
+                verdicts.append((True if ok else False, n, "`%s` = bucket of `%s`%s" % (txt, bk[1], "" if ok else " - which is not the id of member %s (%s = lookupID of this iteration)" % (ivar, idvar))))
+        else:
+            verdicts.append((None, n, "`%s`: %s" % (txt, bk[1])))
+    bad = [v for v in verdicts if v[0] is False]
+    unk = [v for v in verdicts if v[0] is None]
+    ok = False if bad else (None if (unk or not verdicts) else True)
+    at = (bad or unk or verdicts or [(None, None, "")])[0][1]
+    ln = None
+    if at is not None and isinstance(at.c, dict):
+        ln = at.c.get("line") or next((y["line"] for y in walk(at.c) if y.get("line")), None)
+    chk.ob(rule, "%s::member-filed-under-own-id" % fname, ok, ("esutil/htm/htmc.cc:%s" % ln) if ln else where,
+           "every append of member index %s goes to the list that is hmap[%s], %s being lookupID of that member's own position (the search looks a member up only under "
+           "its own triangle id)%s" % (ivar, idvar, idvar, " -- " + "; ".join(v[2] for v in (bad or unk)[:2]) if (bad or unk) else
+                                     (" (%s)" % "; ".join(v[2] for v in verdicts[:4]) if verdicts else " -- no append of the member index was located")))
 
 
 # ---------------------------------------------------------------------------
@@ -2320,14 +2660,28 @@ def test_terms(fi):
             return None
         dn = cfg.node(next(iter(ds)))
         a = getattr(dn, "ast", None)
-        if not (isinstance(a, ast.Assign) and len(a.targets) == 1 and isinstance(a.targets[0], ast.Name) and a.targets[0].id == name):
+        if not (isinstance(a, ast.Assign) and len(a.targets) == 1):
             return None
-        used = {x.id for x in ast.walk(a.value) if isinstance(x, ast.Name) and isinstance(x.ctx, ast.Load)}
+        tgt, val = a.targets[0], a.value
+        if isinstance(tgt, (ast.Tuple, ast.List)) and isinstance(val, (ast.Tuple, ast.List)) and len(tgt.elts) == len(val.elts) \
+                and not any(isinstance(x, ast.Starred) for x in list(tgt.elts) + list(val.elts)):
+            # `n1, n2 = a.size, b.size`: all right-hand sides are evaluated before any name is bound, so the component
+            # that goes to `name` is its value provided no target of the statement is read on the right
+            tn = [t.id if isinstance(t, ast.Name) else None for t in tgt.elts]
+            if None in tn or tn.count(name) != 1:
+                return None
+            rhs_names = {x.id for x in ast.walk(val) if isinstance(x, ast.Name)}
+            if rhs_names & set(tn):
+                return None
+            val = val.elts[tn.index(name)]
+        elif not (isinstance(tgt, ast.Name) and tgt.id == name):
+            return None
+        used = {x.id for x in ast.walk(val) if isinstance(x, ast.Name) and isinstance(x.ctx, ast.Load)}
         if name in used or any(RIN.get(dn.id, {}).get(u, set()) != RIN.get(at.id, {}).get(u, set()) for u in used):
             return None
         if any(isinstance(x, (ast.Lambda, ast.NamedExpr, ast.Yield, ast.Await)) for x in ast.walk(a.value)):
             return None
-        return subst(copy.deepcopy(a.value), dn, depth - 1)
+        return subst(copy.deepcopy(val), dn, depth - 1)
 
     def subst(e, at, depth):
         class T(ast.NodeTransformer):
